@@ -495,7 +495,11 @@ class FunctionLocation(Location):
         # if method_name is not set then we need to discover it from the frame.
         if self.__function_name is None:
             # load source lines
-            lines, start = inspect.getsourcelines(frame)
+            try:
+                lines, start = inspect.getsourcelines(frame)
+            except (OSError, TypeError):
+                # source is not available (e.g. code compiled from a string) - we cannot discover the method
+                return False
             end = start + len(lines)
             # if the targeted line is in the range of start to end
             if start <= line >= end:
